@@ -38,6 +38,10 @@ def gen(ctx, tier, rng):
     for n in (lens_all if not full else lens_all + list(range(0, 131))):
         for d in (deltas_all if (full or n in (0, 1, 16, 31, 32, 33, 64, 65, 100, 256)) else [-80, -65, -64, -33, -32, -17, -16, -15, -1, 0, 1, 15, 16, 17, 31, 32, 33, 63, 64, 65, 80]):
             pairs.add((n, d))
+    # long buffers at the offsets around one and several cipher blocks (counter-byte carries, many SIMD batches)
+    for n in (4096, 4097, 8200):
+        for d in (-80, -65, -64, -63, -17, -16, -1, 0, 1, 16, 17, 63, 64, 65, 80):
+            pairs.add((n, d))
     seed = rb(rng, 32)
     pk = edpy.pubkey(seed)
     sk = seed + pk
@@ -57,7 +61,7 @@ def gen(ctx, tier, rng):
         if n % 5 == 0:
             T.append(("BOX", rng.choice(["xsalsa", "xchacha"]), d, m, rb(rng, 24), rb(rng, 32), rb(rng, 32)))
     # exact aliasing: stream XOR and AEAD forms
-    for n in list(range(0, 300)) + [511, 512, 513, 1023, 1024, 1025, 2047, 2048, 2049]:
+    for n in list(range(0, 300)) + [511, 512, 513, 1023, 1024, 1025, 2047, 2048, 2049, 4095, 4096, 4097, 4200, 8193, 16400]:
         m = rb(rng, n)
         for (c, nl) in (("chacha20", 8), ("chacha20_ietf", 12), ("xchacha20", 24), ("salsa20", 8), ("xsalsa20", 24), ("salsa2012", 8)):
             if n > 300 or n % 2 == 0 or full:
